@@ -50,7 +50,7 @@ func main() {
 		ID:    "C16",
 		Level: "exploration",
 		Pkg:   "./cmd/c16",
-		Rule: "files are generated per calibration variant from classes: clean CSV (header present/absent/variant, 2 or 3 columns, LF/CRLF, quoted fields), one CSV-level defect at a random row (single column, extra column, bare quote, quote+junk, unterminated quote, blank field line), single-column first row, token soup, structural extremes (empty, header only, no final newline, many rows), absent file; " +
+		Rule: "files are generated per calibration variant from classes: clean CSV (header present/absent/variant, 2 or 3 columns, LF/CRLF, quoted fields), one CSV-level defect at a random row (single column, extra column, bare quote, quote+junk, unterminated quote, blank field line), single-column first row, token soup, structural extremes (empty, header only, no final newline, many rows), absent file, same-length rewrite of an already parsed file with its modification time restored; " +
 			"timestamps: around genesis, slot boundaries, 32-bit second boundary, far future, before genesis, beyond int64, non-numeric; readings: +-24 boundary, truncation targets, negatives, scientific, hex, huge, NaN/Inf, text. " +
 			"Non-trivial = a file for which the reference rule demands at least one record or that has a CSV-level error; distinct by (calibration text, file text).",
 		Assumptions: []string{
@@ -65,7 +65,7 @@ func main() {
 		Post: func(c *ev.Check, outs []*run.Outcome) {
 			for _, k := range []string{"rows.ts.in-range/scaled", "rows.ts.in-range/below-24", "rows.ts.in-range/unparseable", "rows.ts.before-genesis", "rows.ts.not-an-int64", "rows.row.too-few-fields",
 				"files.csv_error", "files.wellformed", "files.absent", "records.negative_scaled", "records.matched", "calib.valid_readback", "calib.malformed_rejected", "calib.absent_defaults",
-				"rows.boundary24", "farfuture.probes", "files.single_column_first_row"} {
+				"rows.boundary24", "farfuture.probes", "files.single_column_first_row", "rewrite.same_size_same_mtime"} {
 				c.Require(k, 1)
 			}
 			c.Require("records.matched", 1000)
@@ -712,6 +712,7 @@ func (w *world) calibrationRun(idx int, nfiles int) {
 			return
 		}
 	}
+	w.sameSizeRewrite(cr, c)
 	w.farFuture(cr, c)
 }
 
